@@ -26,18 +26,19 @@ import (
 
 // Real is what the monitor observed of one execution.
 type Real struct {
-	Trace    []string
-	GTrace   []string
-	Value    string
-	Err      string // "" | "T<n>" | "<rt>"
-	ErrText  string
-	Panicked bool
-	PanicSig string
-	PanicVal string
-	Unsettled bool   // script goroutines were still running when the trace was read
-	Overflow bool    // the event budget was exceeded (runaway)
-	TimedOut bool    // the execution watchdog fired
-	CPUBurn  float64 // process CPU seconds consumed by this execution when it timed out
+	Trace         []string
+	GTrace        []string
+	Value         string
+	Err           string // "" | "T<n>" | "<rt>"
+	ErrText       string
+	Panicked      bool
+	PanicSig      string
+	PanicVal      string
+	Unsettled     bool    // script goroutines were still running when the trace was read
+	Overflow      bool    // the event budget was exceeded (runaway)
+	TimedOut      bool    // the execution watchdog fired
+	SelfCancelled bool    // the program cancelled its own context through hcancel()
+	CPUBurn       float64 // process CPU seconds consumed by this execution when it timed out
 }
 
 var reThrown = regexp.MustCompile(`^(T\d+)?$`) // thrown messages of generated programs: T<id>, or the empty message
@@ -58,8 +59,9 @@ type Recorder struct {
 	waitTO bool
 	// event budget: generated programs emit < 3000 events; a run that exceeds the
 	// budget is cut short (a logical-step bound, not a time bound)
-	cancel   func()
-	overflow bool
+	cancel        func()
+	overflow      bool
+	selfCancelled bool
 }
 
 const EventBudget = 30000
@@ -96,6 +98,19 @@ func (r *Recorder) Bind(e *env.Env) {
 		}
 		r.ev("catch " + errClass(text))
 	})
+	// hcancel cancels the context of the run from inside a host call and returns normally
+	// (used by the direct checks only; the generators never emit it)
+	e.Define("hcancel", func() {
+		r.mu.Lock()
+		r.selfCancelled = true
+		c := r.cancel
+		r.mu.Unlock()
+		if c != nil {
+			c()
+		}
+	})
+	// nm: a nil typed map handed in by the host (reads of any key yield nil)
+	e.Define("nm", map[string]int64(nil))
 	e.Define("mb", func(k interface{}) { r.ev("mb " + ank.Render(k)) })
 	e.Define("me", func(k interface{}) { r.ev("me " + ank.Render(k)) })
 	e.Define("h0", func() { r.ev("h0") })
@@ -180,6 +195,15 @@ func finish(o ank.Out, rec *Recorder, ctx context.Context) Real {
 	}
 	if rec.overflow {
 		real.Overflow = true
+		return real
+	}
+	if rec.selfCancelled {
+		// the program cancelled its own context through hcancel(): the outcome is a result, not a watchdog expiry
+		real.SelfCancelled = true
+		if o.Err != nil {
+			real.ErrText = o.Err.Error()
+			real.Err = errClass(real.ErrText)
+		}
 		return real
 	}
 	if ctx.Err() != nil || rec.waitTO {
